@@ -73,6 +73,7 @@ class Event_contains_self_reference:
 @contract('hpl.ast.events.HplEvent.simple_events', virtual=True, props=['C15'])
 class Event_simple_events:
     result = 'Seq[Event]'
+    inline_when_known = True
 
     def returns(self):
         return alts(self)
